@@ -28,7 +28,7 @@ MIN_NONTRIVIAL = {"quick": 150, "thorough": 1500}
 RULE = (
     "cases: (accelerator configuration, accfg program) pairs. Configurations: snax_hwpe_mult, gemmini (RoCC), snax_alu / snax_gemmx / "
     "snax_xdma / snax_phs with seeded streamer configurations (1-6 streamers, 1-6 temporal dims with n/i/r flags, 1-2 spatial dims, option and "
-    "extension subsets, gemmx m/n/k 1..16 (launches with per-channel quantisation attributes in 40% of the gemmx cases), PHS switch counts 0..6); the accfg.accelerator op comes from generate_acc_op() of the current tree. "
+    "extension subsets; in half of the non-RoCC cases the module declares the accelerator 16 / 64 addresses higher or 32 lower than the registered object would; gemmx m/n/k 1..16 (launches with per-channel quantisation attributes in 40% of the gemmx cases), PHS switch counts 0..6); the accfg.accelerator op comes from generate_acc_op() of the current tree. "
     "Programs: accfg-family ASTs over that accelerator's real field and launch-field names, taken after one of the stages "
     "{as written, trace-states, +dedup, +dedup+overlap}. Reference = accfg-level program on the name-indexed machine; subject = "
     "the same program after convert-accfg-to-csr on the address-indexed CSR machine (csrw/csrr/.insn interpreted), same environments "
@@ -46,6 +46,7 @@ def gen_case(rng, tier):
     prof["top_stmts"] = rng.randint(1, 4)
     prof["llvm_call"] = False
     case = {"cfg": cfg, "stage": rng.choice([0, 1, 2, 2, 3, 3]), "prof": prof, "gseed": rng.randrange(1 << 30)}
+    case["decl_shift"] = rng.choice([None, None, None, 16, 64, -32])
     if cfg["kind"] == "gemmx":
         case["per_channel"] = rng.random() < 0.4
         if case["per_channel"]:
@@ -65,6 +66,21 @@ def materialise(case):
     fields = list(acc_op.field_names())
     lfields = list(acc_op.launch_field_names())
     style, rocc = style_of(acc)
+    shift = case.get("decl_shift")
+    if shift and not rocc and style != "poll-clear":
+        # the module declares the accelerator at other addresses than the registered Python object would generate (IR
+        # written for another hardware configuration): the lowering has to follow the declaration in the module
+        from snaxc.dialects import accfg
+
+        every = [v.value.data for _, v in acc_op.field_items()] + [v.value.data for _, v in acc_op.launch_field_items()] + [acc_op.barrier.value.data]
+        if 0 <= min(every) + shift and max(every) + shift + 2 <= 0xFFF:
+            acc_op = accfg.AcceleratorOp(
+                acc_op.name_prop,
+                {n: v.value.data + shift for n, v in acc_op.field_items()},
+                {n: v.value.data + shift for n, v in acc_op.launch_field_items()},
+                acc_op.barrier.value.data + shift,
+            )
+            acc_op.verify()
     if case.get("ast") is None:
         prof = dict(case["prof"])
         prof["n_fields"] = [len(fields), 0]
@@ -285,6 +301,8 @@ def shrink(case):
     yield from shrink_case(case)
     if case["stage"] > 0:
         yield dict(case, stage=case["stage"] - 1)
+    if case.get("decl_shift"):
+        yield dict(case, decl_shift=None)
     cfg = case["cfg"]
     # simpler configurations keep the same AST only if the number of fields does not change: the
     # candidate is regenerated from scratch instead (ast=None) with a smaller configuration
